@@ -303,27 +303,133 @@ def only_within(prog, f, anchors, _seen=None):
     return all(only_within(prog, c, anchors, _seen) for c in callers)
 
 
+def _address_uses(prog):
+    """{q-name: (taken by code, {keys of the file-scope objects whose initialiser lists the function})}"""
+    c = getattr(prog, '_h14_addr_uses', None)
+    if c is not None:
+        return c
+    out = {}
+    for f in prog.all_funcs():
+        u = prog.unit_of(f)
+        for e in f.events():
+            for x in walk(e):
+                if x.get('k') == 'var' and x.get('vk') == 'func':
+                    t = (prog.resolve(u, x['name']) if u else None) or prog.funcs.get(x['name'])
+                    if t is not None:
+                        out.setdefault(t.q, [False, set()])[0] = True
+    for key, g in prog.globals.items():
+        init = g.get('init') if isinstance(g, dict) else None
+        if isinstance(init, dict):
+            unit = g.get('unit') or (key.split(':')[0] if ':' in key else None)
+            for x in walk(init):
+                if x.get('k') == 'var' and x.get('vk') == 'func':
+                    t = (prog.resolve(unit, x['name']) if unit else None) or prog.funcs.get(x['name'])
+                    if t is None:
+                        cands = [y for y in prog.funcs.values() if y.name == x['name']]
+                        t = cands[0] if len(cands) == 1 else None
+                    if t is not None:
+                        out.setdefault(t.q, [False, set()])[1].add(key)
+    prog._h14_addr_uses = out
+    return out
+
+
+def _mentions(x, names):
+    return any(y.get('k') == 'var' and y.get('name') in names and y.get('vk') != 'func' for y in walk(x))
+
+
+def _pointer_escapes(prog, f, names, depth=0):
+    """the pointer value held in the variables `names` of f (a parameter, the name of a file-scope table) may outlive
+    the activation or reach code we do not see: it is stored to anything but a local scalar, returned, or handed to a
+    function other than a static one that (recursively, two levels) does not let it escape either.  Indexing,
+    dereferencing, stepping and calling through it do not make it escape."""
+    names = set(names)
+    changed = True
+    while changed:
+        changed = False
+        for e in f.events():
+            if e['ev'] == 'store' and 'rhs' in e and _mentions(e['rhs'], names):
+                l = strip(e['lhs'])
+                if isinstance(l, dict) and l.get('k') == 'var' and l.get('vk') not in ('global', 'staticlocal', 'func'):
+                    if l['name'] not in names:
+                        names.add(l['name'])
+                        changed = True
+    u = prog.unit_of(f)
+    for e in f.events():
+        if e['ev'] == 'store' and 'rhs' in e and _mentions(e['rhs'], names):
+            l = strip(e['lhs'])
+            if not (isinstance(l, dict) and l.get('k') == 'var' and l['name'] in names):
+                return True
+        elif e['ev'] == 'ret' and any(_mentions(v, names) for k_, v in e.items() if isinstance(v, dict)):
+            return True
+        elif e['ev'] == 'call':
+            for n, a in enumerate(e.get('args', [])):
+                if not _mentions(a, names):
+                    continue
+                t = ((prog.resolve(u, e['callee']) if u else None) or prog.funcs.get(e['callee'])) if 'callee' in e else None
+                if t is None or not t.blocks or not t.static or depth >= 2 or n >= len(t.params):
+                    return True
+                if _pointer_escapes(prog, t, {t.params[n]['name']}, depth + 1):
+                    return True
+    return False
+
+
+def private_table_users(prog, key):
+    """[Func] the functions that mention the file-scope object `key`, provided it is a *private constant table*:
+    static, never stored into, not a poll-method table or tls-user descriptor (their entries are entered from
+    everywhere), and no user lets a pointer into it escape (so the functions it lists can only be entered by
+    indirect calls made in the dynamic extent of these users).  None when it is not such a table."""
+    g = prog.globals.get(key)
+    if not isinstance(g, dict) or not g.get('static') or g.get('extern_decl') or \
+            g.get('record') in ('iv_fd_poll_method', 'iv_tls_user'):
+        return None
+    users = []
+    for f in prog.all_funcs():
+        if g.get('unit') and prog.unit_of(f) != g.get('unit'):
+            continue
+        if any(_mentions(e, {g['name']}) for e in f.events()):
+            for e in f.events():
+                # constant: no code stores into it (whether or not it is declared const)
+                rt = lvalue_root(e['lhs']) if e['ev'] == 'store' else None
+                if rt is not None and rt.get('vk') in ('global', 'staticlocal') and rt.get('name') == g['name']:
+                    return None
+            if _pointer_escapes(prog, f, {g['name']}):
+                return None
+            users.append(f)
+    return users
+
+
 def only_via(prog, f, anchors, _seen=None):
     """True iff every way to execute `f` passes through one of the functions `anchors` (q-names): f is an anchor, or
-    f is neither public API nor address-taken and each of its callers is only_via.  (Unlike only_within, an internal
-    function with external linkage is not an entry point of its own: users cannot name it.)"""
+    f is not public API and each of its callers is only_via, and its address is taken, if at all, only in private
+    constant tables all of whose users are only_via (iteration 5: a direct call and an indirect call through a
+    constant table that only that code can read are the same way of being entered).  (Unlike only_within, an
+    internal function with external linkage is not an entry point of its own: users cannot name it.)"""
     _seen = set() if _seen is None else _seen
     if f.q in anchors:
         return True
     if f.q in _seen:
         return True
     _seen.add(f.q)
-    if f.q in public_api(prog) or f.q in roles.address_taken(prog) or f.constructor:
+    if f.q in public_api(prog) or f.constructor:
         return False
-    callers = []
+    ways = []
+    if f.q in roles.address_taken(prog):
+        code, tables = _address_uses(prog).get(f.q, (True, set()))
+        if code or not tables:
+            return False
+        for key in sorted(tables):
+            users = private_table_users(prog, key)
+            if not users:
+                return False
+            ways += users
     for (c, e) in prog.callers_of(f.name):
         u = prog.unit_of(c)
         t = (prog.resolve(u, e['callee']) if u else None) or prog.funcs.get(e['callee'])
         if t is not None and t.q == f.q:
-            callers.append(c)
-    if not callers:
+            ways.append(c)
+    if not ways:
         return False
-    return all(only_via(prog, c, anchors, _seen) for c in callers)
+    return all(only_via(prog, c, anchors, _seen) for c in ways)
 
 
 # --------------------------------------------------------------------------
@@ -1072,3 +1178,146 @@ def claim_regions(g, eff, L, steps):
         return S
     _, ev_in = forward(g, frozenset(), tr, lambda a, b: a | b, edge=_pruned)
     return ev_in
+
+
+# --------------------------------------------------------------------------
+# must-facts carried through a local discriminator (iteration 5)
+# --------------------------------------------------------------------------
+
+def _const_values(x):
+    """finite set of the integers an expression can evaluate to (constants, `c ? 2 : 3` with such arms), else None"""
+    v = strip(x)
+    if not isinstance(v, dict):
+        return None
+    if v.get('k') == 'paren' and 'e' in v:
+        return _const_values(v['e'])
+    c = _intval(v)
+    if c is not None:
+        return frozenset([c])
+    if v.get('k') == 'cond':
+        a, b = _const_values(v.get('a')), _const_values(v.get('b'))
+        return (a | b) if a is not None and b is not None else None
+    return None
+
+
+def guarded_must(g, edge_facts, kills):
+    """{(b,i): frozenset(facts)}: facts that hold on every path to the point.
+    edge_facts(blk, succ index) -> facts a branch outcome establishes; kills(event) -> None | 'all' | set of facts that
+    the event invalidates.  The analysis is path sensitive in the *local discriminators* of g: a decision that was
+    taken where the fact was established may be recorded in a local integer (`kind = LOCAL;` ... `switch (kind)`,
+    `if (kind == LOCAL)`) and acted upon later.  State = (facts, possible values of locals that only hold constants,
+    conditional facts `v == c => F`).  At a join a conditional fact survives iff each side has it, or knows
+    that v cannot be c there (vacuous), or holds F and v == c outright; an edge on which `v == c` is known to hold
+    turns `v == c => F` into F.  This is the same necessary condition as the plain must-analysis ("the fact holds on
+    every path that reaches the access") evaluated on the feasible paths only; a fact established on a path that
+    does not determine the discriminator's value is lost as before."""
+    taken = set()
+    for e in g.events():
+        for x in walk(e):
+            if x.get('k') == 'addr':
+                v = strip(x['e'])
+                if isinstance(v, dict) and v.get('k') == 'var':
+                    taken.add(v['name'])
+
+    def local(x):
+        v = strip(x)
+        if isinstance(v, dict) and v.get('k') == 'var' and v.get('vk') not in ('global', 'staticlocal', 'func') \
+                and v['name'] not in taken:
+            return v['name']
+        return None
+
+    def sat(S):
+        facts, vals, conds = S
+        extra = {(v, next(iter(cs)), F) for (v, cs) in vals if len(cs) == 1 for F in facts}
+        return conds | extra if extra else conds
+
+    def ent(S, c):
+        if c in S[2]:
+            return True
+        for (v, cs) in S[1]:
+            if v == c[0]:
+                return c[1] not in cs or (cs == frozenset([c[1]]) and c[2] in S[0])
+        return False
+
+    def join(a, b):
+        if a == b:
+            return a
+        da, db = dict(a[1]), dict(b[1])
+        vals = frozenset((v, da[v] | db[v]) for v in da if v in db)
+        conds = frozenset(c for c in sat(a) | sat(b) if ent(a, c) and ent(b, c))
+        return (a[0] & b[0], vals, conds)
+
+    def setval(S, v, cs):
+        vals = frozenset(x for x in S[1] if x[0] != v)
+        if cs is not None:
+            vals = vals | {(v, frozenset(cs))}
+        return (S[0], vals, S[2])
+
+    def tr(e, S):
+        k = kills(e)
+        if k == 'all':
+            S = (frozenset(), S[1], frozenset())
+        elif k:
+            S = (S[0] - set(k), S[1], frozenset(c for c in S[2] if c[2] not in k))
+        if e['ev'] == 'store':
+            v = local(e['lhs'])
+            if v is not None:
+                # what was known under the old value of v stays known as plain facts only
+                S = (S[0], S[1], frozenset(c for c in sat(S) if c[0] != v))
+                S = setval(S, v, _const_values(e['rhs']) if e.get('op') == '=' and 'rhs' in e else None)
+        return S
+
+    def narrow(S, v, keep, eq=None):
+        d = dict(S[1])
+        if v not in d and eq is not None:
+            d[v] = frozenset([eq])
+        if v in d:
+            cs = frozenset(c for c in d[v] if keep(c))
+            if not cs:
+                return None         # infeasible edge
+            S = setval(S, v, cs)
+            if len(cs) == 1:
+                c0 = next(iter(cs))
+                S = (S[0] | {c[2] for c in S[2] if c[0] == v and c[1] == c0}, S[1], S[2])
+        return S
+
+    CMP = {'==': lambda v, c: v == c, '!=': lambda v, c: v != c, '<': lambda v, c: v < c, '>': lambda v, c: v > c,
+           '<=': lambda v, c: v <= c, '>=': lambda v, c: v >= c}
+
+    def edge(blk, si, S):
+        if not feasible_edge(blk, si):
+            return None
+        t = blk.term
+        if not t or t.get('cond') is None or t.get('cls') == 'MethodDispatch':
+            return S
+        if t.get('cls') == 'SwitchStmt':
+            cases = t.get('cases') or []
+            v = local(t['cond'])
+            if v is None or si >= len(cases):
+                return S
+            me = cases[si]
+            if isinstance(me, int):
+                return narrow(S, v, lambda c: c == me, eq=me)
+            if me == 'default':
+                ints = [c for c in cases if isinstance(c, int)]
+                return narrow(S, v, lambda c: c not in ints)
+            return S
+        if len(blk.succ) != 2:
+            return S
+        S = (S[0] | frozenset(edge_facts(blk, si) or ()), S[1], S[2])
+        for (op, lc, rc, l, r) in norm_cond(t['cond'], si == 0):
+            if op not in CMP or not isinstance(l, dict):
+                continue
+            v = local(l)
+            if v is None:
+                continue
+            try:
+                c = int(rc)
+            except ValueError:
+                continue
+            S = narrow(S, v, lambda x, op=op, c=c: CMP[op](x, c), eq=c if op == '==' else None)
+            if S is None:
+                return None
+        return S
+    _, ev_in = forward(g, (frozenset(), frozenset(), frozenset()), tr, join, edge=edge)
+    return {k: v[0] for k, v in ev_in.items()}
